@@ -372,6 +372,12 @@ class Report:
         if self.broken and not self.violations:
             self.violation("no longer shown to hold: " + "; ".join(self.broken)[:1500], {"broken": self.broken}, found_input=False)
         lines = []
+        import glob
+        for old in glob.glob(os.path.join(VERIF, "replays", f"{self.pid}-*.json")):
+            try:
+                os.remove(old)
+            except OSError:
+                pass
         for k, v in enumerate(self.violations):
             path = os.path.join(VERIF, "replays", f"{self.pid}-{self.seed}-{k}.json")
             with open(path, "w") as f:
